@@ -24,7 +24,7 @@ def run(chk):
     g = evalgen.Gen(chk.rng)
     g.wild = 0.12
     g.entry_updates = True
-    n = 40000 if thorough else 3600
+    n = 60000 if thorough else 24000
     cases = []
     for i in range(n):
         d = chk.rng.choice([1, 2, 2, 3, 3, 4] if not thorough else [2, 3, 3, 4, 4, 5])
